@@ -282,23 +282,35 @@ def sym(name):
 # ---- (d') non-commutative polynomials: sums of matrix words -------------------------------------
 
 class NC:
-    """Sum of products of symbols: {tuple((sym, transposed), ...): coef}."""
+    """Sum of products of matrix symbols with commutative (Poly) coefficients:
+    {tuple((sym, transposed), ...): Poly}."""
 
     def __init__(self, terms=None):
-        self.t = {k: v for k, v in (terms or {}).items() if v != 0}
+        self.t = {}
+        for k, v in (terms or {}).items():
+            if not isinstance(v, Poly):
+                v = Poly.const(v)
+            if v.t:
+                self.t[k] = v
 
     @staticmethod
     def sym(name):
-        return NC({((name, False),): Fraction(1)})
+        return NC({((name, False),): Poly.const(1)})
 
     @staticmethod
     def const(c):
-        return NC({(): Fraction(c)})
+        return NC({(): c if isinstance(c, Poly) else Poly.const(c)})
+
+    def is_scalar(self):
+        return all(k == () for k in self.t)
+
+    def scalar(self):
+        return self.t.get((), Poly())
 
     def __add__(self, o):
         r = dict(self.t)
         for k, v in o.t.items():
-            r[k] = r.get(k, 0) + v
+            r[k] = r[k] + v if k in r else v
         return NC(r)
 
     def __neg__(self):
@@ -311,13 +323,15 @@ class NC:
         r = {}
         for k1, v1 in self.t.items():
             for k2, v2 in o.t.items():
-                r[k1 + k2] = r.get(k1 + k2, 0) + v1 * v2
+                k = k1 + k2
+                r[k] = r[k] + v1 * v2 if k in r else v1 * v2
         return NC(r)
 
     def T(self):
         return NC({tuple((s, not tr) for s, tr in reversed(k)): v for k, v in self.t.items()})
 
     def scale(self, c):
+        c = c if isinstance(c, Poly) else Poly.const(c)
         return NC({k: v * c for k, v in self.t.items()})
 
     def rewrite(self, rules):
@@ -325,31 +339,64 @@ class NC:
         r = {}
         for k, v in self.t.items():
             k2 = tuple(rules.get(f, f) for f in k)
-            r[k2] = r.get(k2, 0) + v
+            r[k2] = r[k2] + v if k2 in r else v
+        return NC(r)
+
+    def subst(self, name, expr):
+        out = NC()
+        for k, v in self.t.items():
+            term = NC.const(v)
+            for s, tr in k:
+                if s == name:
+                    term = term @ (expr.T() if tr else expr)
+                else:
+                    term = term @ NC({((s, tr),): Poly.const(1)})
+            out = out + term
+        return out
+
+    def cancel(self, inverse_pairs):
+        """Remove adjacent A.A^-1 (either order, both plain or both transposed) for declared pairs (A, Ainv)."""
+        inv = {}
+        for a, b in inverse_pairs:
+            inv[a] = b
+            inv[b] = a
+        r = {}
+        for k, v in self.t.items():
+            out = []
+            for f in k:
+                if out and inv.get(out[-1][0]) == f[0] and out[-1][1] == f[1]:
+                    out.pop()
+                else:
+                    out.append(f)
+            k2 = tuple(out)
+            r[k2] = r[k2] + v if k2 in r else v
         return NC(r)
 
     def __eq__(self, o):
         return isinstance(o, NC) and self.t == o.t
 
     def __hash__(self):
-        return hash(tuple(sorted(self.t.items())))
+        return hash(tuple(sorted((k, hash(v)) for k, v in self.t.items())))
 
     def __repr__(self):
         if not self.t:
             return "0"
         out = []
-        for k, v in sorted(self.t.items(), key=str):
+        for k, v in sorted(self.t.items(), key=lambda kv: str(kv[0])):
             w = " . ".join(s + (".T" if tr else "") for s, tr in k) or "1"
-            out.append(w if v == 1 else (f"-{w}" if v == -1 else f"{v}*{w}"))
+            c = repr(v)
+            out.append(w if c == "1" else (f"-{w}" if c == "-1" else f"({c})*{w}"))
         return " + ".join(out)
 
 
 class ToNC:
-    """Expression -> NC. `.dot`, `@`, np.matmul are products; `.T`/np.transpose transposes; `.copy()` is transparent."""
+    """Expression -> NC. `.dot`, `@`, np.matmul are products; `.T`/np.transpose transposes; `.copy()` is transparent.
+    `scalars`: normalised texts of sub-expressions that are commutative scalars (e.g. 'self.scaling')."""
 
-    def __init__(self, env=None, symbolize=None):
+    def __init__(self, env=None, symbolize=None, scalars=()):
         self.env = env or {}
         self.symbolize = symbolize
+        self.scalars = set(scalars)
 
     def __call__(self, n):
         if self.symbolize is not None:
@@ -358,6 +405,9 @@ class ToNC:
                 return s
             if isinstance(s, str):
                 return NC.sym(s)
+        txt = " ".join(ast.unparse(n).split()) if isinstance(n, (ast.Name, ast.Attribute)) else None
+        if txt is not None and txt in self.scalars:
+            return NC.const(Poly.atom(txt))
         if isinstance(n, ast.Name):
             if n.id in self.env:
                 return self(self.env[n.id]) if not isinstance(self.env[n.id], NC) else self.env[n.id]
@@ -375,11 +425,18 @@ class ToNC:
                 return self(n.left) - self(n.right)
             if isinstance(n.op, ast.Mult):
                 l, r = self(n.left), self(n.right)
-                if l.t.keys() == {()}:
-                    return r.scale(l.t[()])
-                if r.t.keys() == {()}:
-                    return l.scale(r.t[()])
+                if l.is_scalar():
+                    return r.scale(l.scalar())
+                if r.is_scalar():
+                    return l.scale(r.scalar())
                 return l @ r  # elementwise product of symbols treated as an opaque ordered product
+            if isinstance(n.op, ast.Div):
+                l, r = self(n.left), self(n.right)
+                if r.is_scalar():
+                    try:
+                        return l.scale(r.scalar().inv())
+                    except NotPolynomial:
+                        pass
         if isinstance(n, ast.Attribute):
             if n.attr == "T":
                 return self(n.value).T()
